@@ -19,6 +19,17 @@ for S in $seeds; do
   P=${S%-*}
   props="$P"
   [ "$S" = "C11-2" ] && props="C11 C16"
+  [ "$S" = "C13-3" ] && props="C13 C16"
+  [ "$S" = "C13-4" ] && props="C13 C17"
+  [ "$S" = "C16-2" ] && props="C16 C03 C08"
+  [ "$S" = "C12-3" ] && props="C12 C16"
+  [ "$S" = "C09-4" ] && props="C09 C16"
+  [ "$S" = "C14-3" ] && props="C14 C16"
+  [ "$S" = "C07-4" ] && props="C07 C16"
+  [ "$S" = "C19-4" ] && props="C19 C02"
+  [ "$S" = "C12-4" ] && props="C12 C02"
+  [ "$S" = "C01-4" ] && props="C01 C17"
+  [ "$S" = "C05-4" ] && props="C05 C17"
   git -C $SR apply /verif/seeded/$S/patch.diff || { echo "$S: patch does not apply"; continue; }
   res=""
   for Q in $props; do
